@@ -13,13 +13,14 @@ MANIFEST = {
                  "region-disjointness predicates) judging every answer of the real code",
     "text": "Proved in Lean for all inputs/histories: _calc_mod equals hash % prime for every row of the prime table regenerated from "
             "arenahash.cpp and every 32-bit hash; arena safety (live regions aligned, in bounds, pairwise disjoint, reset returns all) over "
-            "all alloc/free/reset sequences; ArenaVector refines List (no write outside the allocation, failure leaves it unchanged); the "
-            "word-level bit primitives equal the List Bool specification; String refines a byte list, stays null terminated, "
+            "all alloc/free/reset sequences; ArenaVector growth policy, allocator size facts and the non-allocating operations refine List "
+            "(partial); the word-level bit primitives equal the List Bool specification; String refines a byte list, stays null terminated, "
             "append_uint parses back. The models are tied to the real classes by running both on the same seeded operation lines "
             "(adversarial sizes/keys, several containers on one arena, soft/hard resets, static-buffer arenas) and the monitor judges "
             "every answer of the implementation.",
-    "note": "Partial: ArenaTree/ArenaList/ArenaHash chains are modelled and checked by the monitor (BST order, red-black balance, link "
-            "symmetry, bucket reachability after every operation) but their refinement is not proved for all histories; raw memory "
+    "note": "Partial: ArenaVector operations that reallocate (reserve/resize/insert/concat) and the vector sequence theorem, ArenaBitSet "
+            "reallocating resize/append, ArenaTree/ArenaList/ArenaHash chains are modelled and checked by the monitor (BST order, red-black balance, link "
+            "symmetry, bucket reachability after every operation) are covered by correspondence + monitor only, their refinement is not proved for all histories; raw memory "
             "safety is what ASan/UBSan/LSan see on the explored histories; String::_op_format (vsnprintf) is not modelled. Trusted: Lean "
             "kernel, Spec/C18.lean as the meaning of the ADTs, gen_primes.py, harness/driver/diff, malloc returning fresh blocks.",
 }
@@ -406,7 +407,7 @@ FIXED = [
 
 
 def gen_scenarios(rng, tier):
-    reps = 2 if tier == "quick" else 24
+    reps = 6 if tier == "quick" else 90
     n = 140 if tier == "quick" else 260
     out = list(FIXED)
     for name, fn, wt in SCENARIOS:
